@@ -189,9 +189,9 @@ theorem self_miter {c m0 : Circuit} {ord : Ord} (hord : OrdOK ord) (hc : LintCle
       have := (hepA o).2 this
       rw [e] at this
       cases this
-  have V := mview_of_ok hc hc hb hb hne hsp hep h
+  have V := mview_of_ok hc hc hb hb hne h
   obtain ⟨m1, m2, m3, m4, s1, s2, s3, s4, s5⟩ :=
-    miter_steps hb hb hne (typed_isNone hc) (typed_isNone hc) hsp hep h
+    miter_steps hb hb hne (typed_isNone hc) (typed_isNone hc) h
   obtain ⟨n1, e1, b1, w1⟩ := sub_exact (wf_m0 c c) hc.toWF s1
   obtain ⟨n2, e2, b2, w2⟩ := sub_exact w1 hc.toWF s2
   obtain ⟨n3, e3, b3, w3⟩ := foldAdd_ok tieArgs plain_tie _ m2 m3 w2 s3
